@@ -11,7 +11,7 @@
    Example gives the concrete vm_compute witness; what IS detected is stated after them. *)
 From Coq Require Import List NArith.
 From Echo Require Import Base.Bytes Model.Wal Proofs.WalProofs Proofs.WalProofs2 Proofs.WalProofs3
-  Proofs.WalProofs5.
+  Proofs.WalProofs5 Proofs.WalProofs6.
 Import ListNotations.
 Open Scope N_scope.
 
@@ -117,6 +117,29 @@ Check digest_damage_rejected : forall (H : bytes -> N) (A : Type) (dec : N -> by
   dg' <> h32b (disk_digest H kind payload) ->
   read_loop H dec (S fuel) ((hdr17 kind (lenN payload) ++ payload ++ dg') ++ rest) = Err EDigest.
 Print Assumptions digest_damage_rejected.
+
+(* ---- what IS detected at the frame level: LSN continuity ----
+   (transaction-local index, record count, records root and commit digest are checked by
+   validate_tx; their detection is exercised exhaustively by harness mode `api`, not proved here) *)
+Theorem interior_frame_deletion_rejected : forall (H : bytes -> N) l0 a f b cs,
+  consec l0 (a ++ f :: b) -> Forall (fun g => frame_check H g = None) (a ++ f :: b) ->
+  a <> [] -> b <> [] ->
+  recover_fc H (a ++ b) cs = Err VLsn.
+Proof. exact interior_frame_deletion_detected. Qed.
+Check interior_frame_deletion_rejected : forall (H : bytes -> N) l0 a f b cs,
+  consec l0 (a ++ f :: b) -> Forall (fun g => frame_check H g = None) (a ++ f :: b) ->
+  a <> [] -> b <> [] ->
+  recover_fc H (a ++ b) cs = Err VLsn.
+Print Assumptions interior_frame_deletion_rejected.
+
+Theorem duplicated_frame_rejected : forall (H : bytes -> N) l0 a f b cs,
+  consec l0 (a ++ f :: b) -> Forall (fun g => frame_check H g = None) (a ++ f :: b) ->
+  recover_fc H (a ++ f :: f :: b) cs = Err VLsn.
+Proof. exact duplicated_frame_detected. Qed.
+Check duplicated_frame_rejected : forall (H : bytes -> N) l0 a f b cs,
+  consec l0 (a ++ f :: b) -> Forall (fun g => frame_check H g = None) (a ++ f :: b) ->
+  recover_fc H (a ++ f :: f :: b) cs = Err VLsn.
+Print Assumptions duplicated_frame_rejected.
 
 (* Non-vacuity and the concrete witness (replayed on the real crate by harness modes api / edit /
    hostedit): a valid three-transaction log; without the middle commit marker recovery returns
